@@ -23,11 +23,13 @@ b4e0da3, 1a24bc4, b8285b2 only the signed comparators remain in that state
 (zero extension of the narrower signed operand).
 
 NOT proved here (validated by the oracle and, for the gate lists, by T4 only):
-Kogge-Stone adder/subtractor, array / Karatsuba / Wallace multipliers, all
-dividers, Hamming on the GMW target (Kogge-Stone adders).
+see the list at the end of this file.
 -/
 import MpcVerif.Proofs.BuildersSpec
 import MpcVerif.Proofs.BuildersBridge
+import MpcVerif.Proofs.BuildersKS
+import MpcVerif.Proofs.BuildersMul
+import MpcVerif.Proofs.BuildersDiv
 
 namespace Mpc
 open Mpc.Bld
@@ -108,6 +110,107 @@ theorem C07_sub (pro : Bool) (x y : List Bool) (nz : Nat)
 -- 2-bit 0 - 1 into 4 bits is 15 (was 7 before fix 1a24bc4)
 example : toNat (evalBuilder (fun a b => rippleSubtractor a b 4) true [false, false] [true, false]) = 15 := by
   decide
+
+/-! ## Kogge-Stone adder and subtractor (GMW target of NewAdder / NewSubtractor) -/
+
+/-- `NewKoggeStoneAdder` with an explicit number of prefix stages: exact for all
+operand widths, every result width and all values PROVIDED `2^stages` reaches
+the width of the prefix network `ksWidth = min(max(|x|,|y|)+1, nz)`.  Proof:
+after `k` stages the pair `(p_i, g_i)` of position `i` covers the interval
+`[max(0, i-2^k+1), i]` (`KSInv`, `KSInv_step` doubles the width). -/
+theorem C07_ksAdder_stages (stages : Nat) (pro : Bool) (x y : List Bool) (nz : Nat)
+    (hw : 0 < max x.length y.length) (hnz : 0 < nz)
+    (hst : ksWidth x.length y.length nz ≤ 2 ^ stages) :
+    (evalBuilder (fun a b => ksAdderWith stages a b nz) pro x y).length = nz ∧
+    toNat (evalBuilder (fun a b => ksAdderWith stages a b nz) pro x y) = (toNat x + toNat y) % 2 ^ nz := by
+  refine evalBuilder_spec (R := fun z => z.length = nz ∧ toNat z = (toNat x + toNat y) % 2 ^ nz) ?_ pro (by omega)
+  intro s inp xw yw hwf hx hy hxv hyv
+  have hlx : xw.length = x.length := by rw [← hxv]; simp
+  have hly : yw.length = y.length := by rw [← hyv]; simp
+  refine (ksAdderWith_spec hwf nz stages hx hy (by omega) hnz (by rw [hlx, hly]; exact hst)).mono ?_
+  intro z s' _ ⟨hb, hl, hv⟩
+  exact ⟨hb, by simpa using hl, by rw [hv, hxv, hyv]⟩
+
+/-- `NewKoggeStoneAdder` as written (`numStages = ceil(log2 n)`): exact for all
+widths, `(x + y) mod 2^nz`. -/
+theorem C07_ksAdder (pro : Bool) (x y : List Bool) (nz : Nat)
+    (hw : 0 < max x.length y.length) (hnz : 0 < nz) :
+    (evalBuilder (fun a b => ksAdder a b nz) pro x y).length = nz ∧
+    toNat (evalBuilder (fun a b => ksAdder a b nz) pro x y) = (toNat x + toNat y) % 2 ^ nz := by
+  refine evalBuilder_spec (R := fun z => z.length = nz ∧ toNat z = (toNat x + toNat y) % 2 ^ nz) ?_ pro (by omega)
+  intro s inp xw yw hwf hx hy hxv hyv
+  have hlx : xw.length = x.length := by rw [← hxv]; simp
+  have hly : yw.length = y.length := by rw [← hyv]; simp
+  unfold ksAdder
+  refine (ksAdderWith_spec hwf nz _ hx hy (by omega) hnz (le_two_pow_ceilLog2 _)).mono ?_
+  intro z s' _ ⟨hb, hl, hv⟩
+  exact ⟨hb, by simpa using hl, by rw [hv, hxv, hyv]⟩
+
+example : toNat (evalBuilder (fun a b => ksAdder a b 7) true (ofNat 6 31) (ofNat 6 33)) = 64 := by decide +kernel
+
+/-- The stage count is necessary: with `floor(log2 6) = 2` stages instead of
+`ceil(log2 6) = 3` the 6-bit network computes `31 + 1 = 0`. -/
+theorem C07_ksAdder_too_few_stages_wrong :
+    Nat.log2 6 = 2 ∧ ceilLog2 6 = 3 ∧
+    toNat (evalBuilder (fun a b => ksAdderWith 2 a b 6) true (ofNat 6 31) (ofNat 6 1)) = 0 ∧
+    toNat (evalBuilder (fun a b => ksAdderWith 3 a b 6) true (ofNat 6 31) (ofNat 6 1)) = 32 := by
+  decide +kernel
+
+/-- `NewKoggeStoneSubtractor` with an explicit number of prefix stages: exact
+for all widths when `2^stages` reaches the network width. -/
+theorem C07_ksSub_stages (stages : Nat) (pro : Bool) (x y : List Bool) (nz : Nat)
+    (hw : 0 < max x.length y.length) (hnz : 0 < nz)
+    (hst : ksWidth x.length y.length nz ≤ 2 ^ stages) :
+    (evalBuilder (fun a b => ksSubtractorWith stages a b nz) pro x y).length = nz ∧
+    (toNat (evalBuilder (fun a b => ksSubtractorWith stages a b nz) pro x y) : Int) =
+      ((toNat x : Int) - (toNat y : Int)) % ((2 ^ nz : Nat) : Int) := by
+  refine evalBuilder_spec (R := fun z => z.length = nz ∧
+    (toNat z : Int) = ((toNat x : Int) - (toNat y : Int)) % ((2 ^ nz : Nat) : Int)) ?_ pro (by omega)
+  intro s inp xw yw hwf hx hy hxv hyv
+  have hlx : xw.length = x.length := by rw [← hxv]; simp
+  have hly : yw.length = y.length := by rw [← hyv]; simp
+  refine (ksSubtractorWith_spec hwf nz stages hx hy (by omega) hnz (by rw [hlx, hly]; exact hst)).mono ?_
+  intro z s' _ ⟨hb, hl, hv⟩
+  refine ⟨hb, by simpa using hl, ?_⟩
+  rw [hxv, hyv] at hv
+  have hlt := toNat_lt (busVal s' inp z)
+  rw [busVal_length, hl] at hlt
+  exact sub_mod_int _ _ _ _ hlt hv
+
+/-- `NewKoggeStoneSubtractor` as written (`for step := 1; step < n; step *= 2`,
+i.e. `ceil(log2 n)` stages; leftover bits = borrow since fix 1a24bc4): exact for
+all widths, `(x - y) mod 2^nz`. -/
+theorem C07_ksSub (pro : Bool) (x y : List Bool) (nz : Nat)
+    (hw : 0 < max x.length y.length) (hnz : 0 < nz) :
+    (evalBuilder (fun a b => ksSubtractor a b nz) pro x y).length = nz ∧
+    (toNat (evalBuilder (fun a b => ksSubtractor a b nz) pro x y) : Int) =
+      ((toNat x : Int) - (toNat y : Int)) % ((2 ^ nz : Nat) : Int) := by
+  have := C07_ksSub_stages (ceilLog2 (ksWidth x.length y.length nz)) pro x y nz hw hnz (le_two_pow_ceilLog2 _)
+  have hdef : (fun a b : List Nat => ksSubtractor a b nz) =
+      fun a b => ksSubtractorWith (ceilLog2 (ksWidth a.length b.length nz)) a b nz := rfl
+  refine evalBuilder_spec (R := fun z => z.length = nz ∧
+    (toNat z : Int) = ((toNat x : Int) - (toNat y : Int)) % ((2 ^ nz : Nat) : Int)) ?_ pro (by omega)
+  intro s inp xw yw hwf hx hy hxv hyv
+  have hlx : xw.length = x.length := by rw [← hxv]; simp
+  have hly : yw.length = y.length := by rw [← hyv]; simp
+  unfold ksSubtractor
+  refine (ksSubtractorWith_spec hwf nz _ hx hy (by omega) hnz (le_two_pow_ceilLog2 _)).mono ?_
+  intro z s' _ ⟨hb, hl, hv⟩
+  refine ⟨hb, by simpa using hl, ?_⟩
+  rw [hxv, hyv] at hv
+  have hlt := toNat_lt (busVal s' inp z)
+  rw [busVal_length, hl] at hlt
+  exact sub_mod_int _ _ _ _ hlt hv
+
+example : toNat (evalBuilder (fun a b => ksSubtractor a b 8) true (ofNat 6 0) (ofNat 6 1)) = 255 := by
+  decide +kernel
+
+/-- The stage count is necessary for the subtractor as well: with 2 stages the
+6-bit network computes `32 - 0 = 0`. -/
+theorem C07_ksSub_too_few_stages_wrong :
+    toNat (evalBuilder (fun a b => ksSubtractorWith 2 a b 6) true (ofNat 6 32) (ofNat 6 0)) = 0 ∧
+    toNat (evalBuilder (fun a b => ksSubtractorWith 3 a b 6) true (ofNat 6 32) (ofNat 6 0)) = 32 := by
+  decide +kernel
 
 /-! ## Ordered comparisons -/
 
@@ -375,30 +478,134 @@ example : toNat (evalBuilder (fun a b => hamming false a b 2) true [true] [false
 
 /-! ## Array multiplier -/
 
-/- Full statement: for every operand width and every nz ≥ 1
-   toNat z = (toNat x * toNat y) mod 2^nz.  A general-width proof is NOT done
-   (the generator is loop based); since fix b4e0da3 no result-width restriction
-   remains: the statement is kernel-checked for operand widths 1..2 and EVERY
-   result width 1..7 (beyond 2·max+3) below, and checked by the oracle for all
-   operand widths up to 8 exhaustively and sampled to 130 bits. -/
+/-- `NewArrayMultiplier` is exact for every operand width and every result
+width (narrower than, equal to and wider than twice the operand width; the
+surplus bits are zero since fix b4e0da3): `(x · y) mod 2^nz`.  Proof by the
+row-accumulation invariant: after row `j` the result bits `z[0..j]` and the
+running sums satisfy `z + 2^(j+1)·sums = x · (y mod 2^(j+1))`. -/
+theorem C07_arrayMult (pro : Bool) (x y : List Bool) (nz : Nat)
+    (hw : 0 < max x.length y.length) (hnz : 0 < nz) :
+    (evalBuilder (fun a b => arrayMultiplier a b nz) pro x y).length = nz ∧
+    toNat (evalBuilder (fun a b => arrayMultiplier a b nz) pro x y) = (toNat x * toNat y) % 2 ^ nz := by
+  refine evalBuilder_spec (R := fun z => z.length = nz ∧ toNat z = (toNat x * toNat y) % 2 ^ nz) ?_ pro (by omega)
+  intro s inp xw yw hwf hx hy hxv hyv
+  have hlx : xw.length = x.length := by rw [← hxv]; simp
+  have hly : yw.length = y.length := by rw [← hyv]; simp
+  refine (arrayMultiplier_spec hwf nz hx hy (by omega) hnz).mono ?_
+  intro z s' _ ⟨hb, hl, hv⟩
+  exact ⟨hb, by simpa using hl, by rw [hv, hxv, hyv]⟩
 
-/-- All bit lists of length `n`. -/
-def allBits : Nat → List (List Bool)
-  | 0 => [[]]
-  | n + 1 => (allBits n).flatMap fun l => [false :: l, true :: l]
-
-/-- `NewArrayMultiplier` is exact for operand widths 1..2, every result width
-1..7 (narrower, equal, double and wider than double the operand width) and all
-operand values (kernel-checked enumeration of the model that T4 ties to the Go
-gate lists; wider operands make kernel evaluation of the loop-based generator
-too slow). -/
-theorem C07_arrayMult_small :
-    ∀ nx ∈ [1, 2], ∀ ny ∈ [1, 2], ∀ nz ∈ [1, 2, 3, 4, 5, 6, 7],
-      ∀ x ∈ allBits nx, ∀ y ∈ allBits ny,
-        toNat (evalArrayMult true x y nz) = (toNat x * toNat y) % 2 ^ nz := by
+-- 3 * 3 = 9 in 4 bits; 2-bit 1 * 2 into 6 bits is 2 (was 0 before fix b4e0da3)
+example : toNat (evalBuilder (fun a b => arrayMultiplier a b 4) true [true, true] [true, true]) = 9 := by
+  decide +kernel
+example : toNat (evalBuilder (fun a b => arrayMultiplier a b 6) true [true, false] [false, true]) = 2 := by
   decide +kernel
 
--- 2-bit 1 * 2 into 6 bits is 2 (was 0 before fix b4e0da3)
-example : toNat (evalArrayMult true [true, false] [false, true] 6) = 2 := by decide +kernel
+/-! ## Long division (Yao target of NewUDivider / NewIDivider) -/
+
+/-- `NewUDividerLong` (on either target: its subtractor is `NewSubtractor`),
+quotient: for all operand widths, every quotient width `nz ≤ max(|x|,|y|)`
+(wider quotient wires stay unconnected in the Go code) and every non-zero
+divisor the result is `(x / y) mod 2^nz`.  Proof: restoring-division invariant
+`a_top = q·b + r, r < b` over the dividend bits (`divLongLoop_spec`). -/
+theorem C07_udiv (gmw pro : Bool) (x y : List Bool) (nz : Nat)
+    (hw : 0 < max x.length y.length) (hnz : nz ≤ max x.length y.length) (hy : toNat y ≠ 0) :
+    (evalBuilder (fun a b => do let d ← uDividerLong gmw a b nz 0; pure d.1) pro x y).length = nz ∧
+    toNat (evalBuilder (fun a b => do let d ← uDividerLong gmw a b nz 0; pure d.1) pro x y) =
+      (toNat x / toNat y) % 2 ^ nz := by
+  refine evalBuilder_spec (R := fun z => z.length = nz ∧ toNat z = (toNat x / toNat y) % 2 ^ nz) ?_ pro (by omega)
+  intro s inp xw yw hwf hx hy' hxv hyv
+  have hlx : xw.length = x.length := by rw [← hxv]; simp
+  have hly : yw.length = y.length := by rw [← hyv]; simp
+  refine (uDividerLong_spec hwf gmw nz 0 hx hy' (by omega) (by rw [hyv]; omega)).map ?_
+  intro t s' _ ⟨h1, _, h1l, _, hq, _⟩
+  have hmin : min nz (max xw.length yw.length) = nz := by omega
+  rw [hmin] at h1l hq
+  exact ⟨h1, by simpa using h1l, by rw [hq, hxv, hyv]⟩
+
+/-- `NewUDividerLong`, remainder: `(x mod y) mod 2^nz` for `nz ≤ max(|x|,|y|)`,
+non-zero divisor. -/
+theorem C07_umod (gmw pro : Bool) (x y : List Bool) (nz : Nat)
+    (hw : 0 < max x.length y.length) (hnz : nz ≤ max x.length y.length) (hy : toNat y ≠ 0) :
+    (evalBuilder (fun a b => do let d ← uDividerLong gmw a b 0 nz; pure d.2) pro x y).length = nz ∧
+    toNat (evalBuilder (fun a b => do let d ← uDividerLong gmw a b 0 nz; pure d.2) pro x y) =
+      (toNat x % toNat y) % 2 ^ nz := by
+  refine evalBuilder_spec (R := fun z => z.length = nz ∧ toNat z = (toNat x % toNat y) % 2 ^ nz) ?_ pro (by omega)
+  intro s inp xw yw hwf hx hy' hxv hyv
+  have hlx : xw.length = x.length := by rw [← hxv]; simp
+  have hly : yw.length = y.length := by rw [← hyv]; simp
+  refine (uDividerLong_spec hwf gmw 0 nz hx hy' (by omega) (by rw [hyv]; omega)).map ?_
+  intro t s' _ ⟨_, h2, _, h2l, _, hr⟩
+  have hmin : min nz (max xw.length yw.length) = nz := by omega
+  rw [hmin] at h2l
+  exact ⟨h2, by simpa using h2l, by rw [hr, hxv, hyv]⟩
+
+example : toNat (evalBuilder (fun a b => do let d ← uDividerLong false a b 7 0; pure d.1) true
+    (ofNat 7 127) (ofNat 7 13)) = 9 := by decide +kernel
+example : toNat (evalBuilder (fun a b => do let d ← uDividerLong false a b 0 7; pure d.2) true
+    (ofNat 7 127) (ofNat 7 13)) = 10 := by decide +kernel
+
+/- Full statement for the signed divider (FALSE for unequal operand widths:
+   the narrower operand is zero extended, oracle findings
+   C07-signed-div-zero-extends; and for a quotient wider than the operands:
+   C07-signed-div-quotient-not-sign-extended). -/
+
+/-- `NewIDivider` on the Yao target for EQUAL operand widths, quotient width
+`nz ≤ n`, non-zero divisor: the quotient truncates toward zero
+(`Int.tdiv`), reduced modulo `2^nz` — the specification fixed by
+testsuite/lang/divi.mpcl. -/
+theorem C07_idiv_equal_width (pro : Bool) (x y : List Bool) (nz : Nat) (hl : x.length = y.length)
+    (hw : 0 < x.length) (hnz : nz ≤ x.length) (hy : toInt y ≠ 0) :
+    (evalBuilder (fun a b => do let d ← iDivider false a b nz 0; pure d.1) pro x y).length = nz ∧
+    (toNat (evalBuilder (fun a b => do let d ← iDivider false a b nz 0; pure d.1) pro x y) : Int) =
+      (Int.tdiv (toInt x) (toInt y)) % ((2 ^ nz : Nat) : Int) := by
+  have hxne : x ≠ [] := by intro h; rw [h] at hw; simp at hw
+  have hyne : y ≠ [] := by intro h; rw [h] at hl; simp only [List.length_nil] at hl; omega
+  refine evalBuilder_spec (R := fun z => z.length = nz ∧
+    (toNat z : Int) = (Int.tdiv (toInt x) (toInt y)) % ((2 ^ nz : Nat) : Int)) ?_ pro (by omega)
+  intro s inp xw yw hwf hx hy' hxv hyv
+  have hlx : xw.length = x.length := by rw [← hxv]; simp
+  have hly : yw.length = y.length := by rw [← hyv]; simp
+  have hmx : max xw.length yw.length = x.length := by omega
+  have hpx : padTo (busVal s inp xw) (max xw.length yw.length) = x := by rw [hxv, hmx]; simp [padTo]
+  have hpy : padTo (busVal s inp yw) (max xw.length yw.length) = y := by rw [hyv, hmx]; simp [padTo, hl]
+  have hB : 0 < absN (padTo (busVal s inp yw) (max xw.length yw.length)) := by
+    rw [hpy, ← (toInt_sign_abs y hyne).2]; exact Int.natAbs_pos.mpr hy
+  refine (iDivider_spec hwf false nz 0 hx hy' (by omega) (by omega) hB).map ?_
+  intro t s' _ ⟨h1, _, h1l, _, hq, _⟩
+  rw [hpx, hpy] at hq
+  exact ⟨h1, by simpa using h1l, by rw [hq]; exact signed_quotient x y hxne hyne nz⟩
+
+/-- `NewIDivider` on the Yao target, remainder, equal operand widths: `|x| mod |y|`
+(the specification fixed by testsuite/lang/modi.mpcl, not Go's `%`). -/
+theorem C07_imod_equal_width (pro : Bool) (x y : List Bool) (nz : Nat) (hl : x.length = y.length)
+    (hw : 0 < x.length) (hnz : nz ≤ x.length) (hy : toInt y ≠ 0) :
+    (evalBuilder (fun a b => do let d ← iDivider false a b 0 nz; pure d.2) pro x y).length = nz ∧
+    toNat (evalBuilder (fun a b => do let d ← iDivider false a b 0 nz; pure d.2) pro x y) =
+      ((toInt x).natAbs % (toInt y).natAbs) % 2 ^ nz := by
+  have hxne : x ≠ [] := by intro h; rw [h] at hw; simp at hw
+  have hyne : y ≠ [] := by intro h; rw [h] at hl; simp only [List.length_nil] at hl; omega
+  refine evalBuilder_spec (R := fun z => z.length = nz ∧
+    toNat z = ((toInt x).natAbs % (toInt y).natAbs) % 2 ^ nz) ?_ pro (by omega)
+  intro s inp xw yw hwf hx hy' hxv hyv
+  have hlx : xw.length = x.length := by rw [← hxv]; simp
+  have hly : yw.length = y.length := by rw [← hyv]; simp
+  have hmx : max xw.length yw.length = x.length := by omega
+  have hpx : padTo (busVal s inp xw) (max xw.length yw.length) = x := by rw [hxv, hmx]; simp [padTo]
+  have hpy : padTo (busVal s inp yw) (max xw.length yw.length) = y := by rw [hyv, hmx]; simp [padTo, hl]
+  have hB : 0 < absN (padTo (busVal s inp yw) (max xw.length yw.length)) := by
+    rw [hpy, ← (toInt_sign_abs y hyne).2]; exact Int.natAbs_pos.mpr hy
+  refine (iDivider_spec hwf false 0 nz hx hy' (by omega) (by omega) hB).map ?_
+  intro t s' _ ⟨_, h2, _, h2l, _, hr⟩
+  rw [hpx, hpy] at hr
+  have hmin : min nz (max xw.length yw.length) = nz := by omega
+  rw [hmin] at h2l
+  exact ⟨h2, by simpa using h2l, by rw [hr, (toInt_sign_abs x hxne).2, (toInt_sign_abs y hyne).2]⟩
+
+-- -42 / 4 = -10 (246 as uint8), |-42| mod 4 = 2 on 8-bit operands
+example : toNat (evalBuilder (fun a b => do let d ← iDivider false a b 8 0; pure d.1) true
+    (ofNat 8 214) (ofNat 8 4)) = 246 := by decide +kernel
+example : toNat (evalBuilder (fun a b => do let d ← iDivider false a b 0 8; pure d.2) true
+    (ofNat 8 214) (ofNat 8 4)) = 2 := by decide +kernel
 
 end Mpc
